@@ -224,6 +224,11 @@ fn main() {
         #[cfg(feature = "world")]
         Some("worker-c02") => std::process::exit(p_world::worker_main()),
         Some("worker-fmt") => std::process::exit(p_pure::worker_fmt_main(&args[2..])),
+        Some("checked-slice") => std::process::exit(p_total::checked_slice_main(
+            args.get(2).and_then(|s| s.parse().ok()).unwrap_or(0),
+            args.get(3).map(|s| s == "thorough").unwrap_or(false),
+        )),
+        Some("checked-one") => std::process::exit(p_total::checked_one_main(&args[2..])),
         Some("worker-crash") => std::process::exit(p_total::worker_crash_main(&args[2..])),
         Some("stress") => {
             let t: usize = args.get(2).map(|s| s.parse().unwrap()).unwrap_or(4);
@@ -236,6 +241,8 @@ fn main() {
             let shard: usize = args[2].parse().unwrap();
             let shards: usize = args[3].parse().unwrap();
             let mini = args.get(4).map(|s| s == "mini").unwrap_or(false);
+            // "midi": every fifth item up to 600 bytes at two configurations — sized for valgrind memcheck (~25x)
+            let midi = args.get(4).map(|s| s == "midi").unwrap_or(false);
             let mut cases = corpus::adversarial();
             cases.extend(corpus::hostile());
             cases.extend(corpus::repro_open());
@@ -243,11 +250,11 @@ fn main() {
             let mut acc = engine::Acc::new();
             let mut n = 0;
             for (i, c) in cases.iter().enumerate() {
-                if i % shards != shard || (mini && (i % 19 != 0 || c.text.len() > 120)) {
+                if i % shards != shard || (mini && (i % 19 != 0 || c.text.len() > 120)) || (midi && ((i / shards) % 5 != 0 || c.text.len() > 600)) {
                     continue;
                 }
                 n += 1;
-                let cfgs: &[Cfg] = if mini { &[Cfg { width: 20, tab: 2, reorder: false }] } else { &[Cfg { width: 80, tab: 2, reorder: false }, Cfg { width: 0, tab: 2, reorder: true }, Cfg { width: fmtx::W_INF, tab: 7, reorder: false }] };
+                let cfgs: &[Cfg] = if mini { &[Cfg { width: 20, tab: 2, reorder: false }] } else if midi { &[Cfg { width: 40, tab: 2, reorder: true }, Cfg { width: 0, tab: 3, reorder: false }] } else { &[Cfg { width: 80, tab: 2, reorder: false }, Cfg { width: 0, tab: 2, reorder: true }, Cfg { width: fmtx::W_INF, tab: 7, reorder: false }] };
                 for &cfg in cfgs {
                     p_total::observe(&c.text, cfg, &c.origin, &mut acc);
                 }
@@ -281,6 +288,7 @@ fn main() {
                 }
             }
         }
+        #[cfg(feature = "world")]
         Some("c02-one") => {
             let text = std::fs::read_to_string(&args[2]).unwrap();
             let r = p_world::violated(&text, Cfg::w(80));
@@ -320,6 +328,33 @@ fn main() {
                         println!("---- {}#{}\n{}", p.name(), i, p.get(i).map(|c| c.text).unwrap_or_else(|| "<rejected>".into()));
                     }
                 }
+            }
+        }
+        Some("mut") => {
+            // sample a mutation pool over the snippet+adversarial+small-fixture bases (debugging aid): tyv mut M-PPAREN [n]
+            let std = workload::Std::load();
+            let sb = std.small_bases.clone();
+            let pool: Box<dyn pools::Pool> = match args[2].as_str() {
+                "M-PPAREN" => Box::new(pools::pattern_paren_pool(sb)),
+                "M-PAREN" => Box::new(pools::paren_pool(sb)),
+                "M-OFF4" => Box::new(p_off::off4_pool(std.snippet_bases.clone())),
+                "M-OFF3" => Box::new(p_off::off3_pool(sb)),
+                "M-OFF" => Box::new(p_off::off_pool(sb)),
+                _ => Box::new(pools::comment_pool(sb)),
+            };
+            let n: usize = args.get(3).map(|s| s.parse().unwrap()).unwrap_or(10);
+            let total = pool.len();
+            let admitted = (0..total).filter(|&i| pool.get(i).is_some()).count();
+            println!("pool {} size {} admitted {}", pool.name(), total, admitted);
+            let mut shown = 0;
+            let step = (total / (n * 3).max(1)).max(1);
+            let mut i = 0;
+            while i < total && shown < n {
+                if let Some(c) = pool.get(i) {
+                    println!("---- {}\n{}", c.origin, c.text);
+                    shown += 1;
+                }
+                i += step;
             }
         }
         Some("show") => {
